@@ -58,8 +58,39 @@ type callArgs struct {
 	opts  any // shared options object (nil: fresh per call)
 }
 
-// invoke performs the API call and records everything observable about it.
-func invoke(api API, c *Call, args callArgs) (o Outcome) {
+// invoke performs the API call on a goroutine of its own, so that a call that exceeds its
+// step budget (or whose recursion runs away) can be ended with runtime.Goexit: its deferred
+// functions run, nothing in the library can swallow it, and unwinding is linear in the depth.
+// The helper goroutine acts for the calling task (the baton is a property of the task, not of
+// a goroutine); the only happens-before edges added are between a task and its own helper.
+func invoke(api API, c *Call, args callArgs) Outcome {
+	w := simrt.W
+	if w == nil {
+		return invokeDirect(api, c, args)
+	}
+	var o Outcome
+	finished := false
+	done := make(chan struct{})
+	w.SetExitable(true)
+	go func() {
+		defer close(done)
+		o = invokeDirect(api, c, args)
+		finished = true
+	}()
+	<-done
+	w.SetExitable(false)
+	hung, steps := w.TookExit()
+	if !finished {
+		if !hung {
+			return Outcome{Status: StPanic, PanicMsg: "the call's goroutine exited (runtime.Goexit in library code?)", PanicSite: "?"}
+		}
+		return Outcome{Status: StHang, PanicMsg: simrt.HangSentinel{Steps: steps}.Error()}
+	}
+	return o
+}
+
+// invokeDirect performs the API call and records everything observable about it.
+func invokeDirect(api API, c *Call, args callArgs) (o Outcome) {
 	defer func() {
 		if r := recover(); r != nil {
 			st, msg := hangOrPanic(r)
